@@ -266,6 +266,53 @@ pub fn pow_hash(digest: &[u8; 32], n_bits: u8, nonce: u64) -> [u8; 32] {
     raw_hash(&second)
 }
 
+/// "keccak" or "blake2s": which unfriendly hash this build's proof of work uses.
+pub fn pow_hash_kind() -> &'static str {
+    if cfg!(any(feature = "keccak_160_lsb", feature = "keccak_248_lsb")) {
+        "keccak"
+    } else {
+        "blake2s"
+    }
+}
+
+/// Parallel grind (one thread per core): some nonce satisfying the difficulty. Used once, offline,
+/// to produce the committed table `pow_solutions.json` for difficulties above 32 bits.
+pub fn pow_grind_parallel(digest: &[u8; 32], n_bits: u8, threads: u64) -> u64 {
+    use std::sync::atomic::{AtomicBool, AtomicU64, Ordering};
+    let mut init = Vec::with_capacity(41);
+    init.extend_from_slice(&POW_MAGIC.to_be_bytes());
+    init.extend_from_slice(digest);
+    init.push(n_bits);
+    let h1 = raw_hash(&init);
+    let done = AtomicBool::new(false);
+    let found = AtomicU64::new(0);
+    std::thread::scope(|sc| {
+        for t in 0..threads {
+            let (done, found, h1) = (&done, &found, &h1);
+            sc.spawn(move || {
+                let mut buf = [0u8; 40];
+                buf[..32].copy_from_slice(h1);
+                let mut nonce = t;
+                let mut i = 0u64;
+                loop {
+                    buf[32..].copy_from_slice(&nonce.to_be_bytes());
+                    if leading_zero_bits(&raw_hash(&buf)) >= n_bits as u32 {
+                        found.store(nonce, Ordering::SeqCst);
+                        done.store(true, Ordering::SeqCst);
+                        return;
+                    }
+                    nonce += threads;
+                    i += 1;
+                    if i % 65536 == 0 && done.load(Ordering::Relaxed) {
+                        return;
+                    }
+                }
+            });
+        }
+    });
+    found.load(Ordering::SeqCst)
+}
+
 pub fn leading_zero_bits(h: &[u8; 32]) -> u32 {
     let mut n = 0;
     for b in h {
